@@ -429,6 +429,10 @@ func init() {
 						c11EscapeGrid(r, i-2*nStr-nm)
 					default:
 						rr := prng.New(seed, 0xC11, uint64(i))
+						if i%16 == 5 {
+							c11Related(r, rr)
+							return
+						}
 						g := &c11Gen{r: rr, tags: map[string]bool{}}
 						text := g.ws() + g.value(0) + g.ws()
 						for t := range g.tags {
@@ -439,6 +443,83 @@ func init() {
 				}}
 		},
 	})
+}
+
+// Texts that differ only in which space-like character stands raw inside their
+// strings and keys (all of them legal there) are compiled and evaluated one
+// after the other in one process: each denotes itself, whatever was compiled
+// before it.
+var c11Spaces = []string{" ", "\u00a0", "\u2028", "\u2029", "\u3000", "\u1680", "\u2003", "\ufeff", "\u0085", "\u200b"}
+
+func c11Related(r *fw.Rec, rr *prng.R) {
+	g := &c11Gen{r: rr, tags: map[string]bool{}}
+	str := func() string {
+		s := g.str()
+		k := 1 + rr.Intn(len(s)-1)
+		for k > 1 && s[k-1] == '\\' {
+			k--
+		}
+		// (between two units, never inside an escape: units are either one raw
+		// character or start with a backslash)
+		for k < len(s)-1 && !strings.ContainsRune("\\\"", rune(s[k])) && s[k] >= 0x80 && s[k]&0xC0 == 0x80 {
+			k++
+		}
+		return s[:k] + "\x00" + s[k:]
+	}
+	var tmpl string
+	switch rr.Intn(4) {
+	case 0:
+		tmpl = str()
+	case 1:
+		tmpl = "[" + str() + ", " + str() + "]"
+	case 2:
+		tmpl = "{" + str() + ": " + str() + "}"
+	default:
+		tmpl = "{\"k\x00v\": [" + str() + ", {\"a\": " + str() + "}]}"
+	}
+	first := strings.ReplaceAll(tmpl, "\x00", c11Spaces[0])
+	r.Begin(first, "null")
+	r.Tag("related-texts-in-one-process")
+	r.Nontrivial(first)
+	order := make([]int, len(c11Spaces))
+	for k := range order {
+		order[k] = k
+	}
+	for k := len(order) - 1; k > 0; k-- {
+		j := rr.Intn(k + 1)
+		order[k], order[j] = order[j], order[k]
+	}
+	for _, k := range order {
+		text := strings.ReplaceAll(tmpl, "\x00", c11Spaces[k])
+		var want interface{}
+		if err := json.Unmarshal([]byte(text), &want); err != nil {
+			r.Inconclusive("harness generated an invalid JSON text: " + err.Error())
+			return
+		}
+		e, co := obs.Compile(text)
+		if e == nil {
+			r.Violation("json-text-rejected", fmt.Sprintf("a JSON text (%q) is not accepted as an expression: %s", text, co.String()), nil)
+			return
+		}
+		r.Evals(1)
+		var out []byte
+		var err error
+		if pi := fw.Guard(func() { out, err = e.EvalBytes([]byte("null")) }); pi != nil {
+			r.Violation("panic:"+pi.Site, "EvalBytes panicked: "+pi.Value, nil)
+			return
+		}
+		var got interface{}
+		if err != nil || json.Unmarshal(out, &got) != nil {
+			r.Violation("json-text-not-a-value", fmt.Sprintf("evaluating the JSON text %q gave %s, %v", text, clipb(out), err), nil)
+			return
+		}
+		if !sameJSON(got, want) {
+			r.Violation("denotes-other-value", fmt.Sprintf("the text %q denotes %s but evaluates to %s (texts that differ from it only in a space-like character inside the strings were compiled before it in this process)", text, obs.Show(want), clipb(out)), nil)
+			return
+		}
+	}
+	r.Outcome("value")
+	r.Held()
 }
 
 // single-quoted string denotes the same value as the double-quoted one
